@@ -133,3 +133,6 @@ func OKind(r int, path string) int
 // mode prescribes ("only-models": same type declarations, no funcs/vars in the second;
 // "tags": equal after erasing struct tags; "no-yaml": second = first minus YAML code).
 func CompareDecls(a, b, mode string) string
+
+// VFile declares a path of the virtual file system (os.Stat succeeds exactly for these).
+func VFile(path string)
